@@ -143,6 +143,129 @@ fn mutate(rng: &mut Rng, m: &mut Vec<u8>) {
     }
 }
 
+fn labs(lens: &[usize], c: u8) -> Vec<u8> {
+    let mut v = vec![];
+    for &l in lens {
+        v.push(l as u8);
+        v.extend(std::iter::repeat(c).take(l));
+    }
+    v
+}
+
+/// names at the 253..257-octet boundary (uncompressed and completed by a
+/// pointer into the question name) as question name and as owner in one of
+/// the three record sections, every section holding a record
+fn limit_shape(rng: &mut Rng) -> Vec<u8> {
+    let last = 58 + rng.below(6) as usize; // 58..63 -> 252..257 octets
+    let ones = 125 + rng.below(4) as usize;
+    let q: Vec<usize> = match rng.below(3) {
+        0 => vec![63, 63, 63, last],
+        1 => vec![1; ones],
+        _ => vec![63, 63, 63, 61],
+    };
+    let owner: Vec<u8> = match rng.below(5) {
+        0 => {
+            let mut v = labs(&[63, 63, 63, 58 + rng.below(6) as usize], b'b');
+            v.push(0);
+            v
+        }
+        1 => {
+            let mut v = labs(&vec![1; 125 + rng.below(4) as usize], b'b');
+            v.push(0);
+            v
+        }
+        2 => {
+            let mut v = labs(&[60 + rng.below(4) as usize], b'b');
+            v.extend([0xC0, 76]);
+            v
+        }
+        3 => {
+            let mut v = labs(&[1, 59 + rng.below(5) as usize], b'b');
+            v.extend([0xC0, 76]);
+            v
+        }
+        _ => {
+            let mut v = labs(&[63, 60 + rng.below(4) as usize], b'b');
+            v.extend([0xC0, 140]);
+            v
+        }
+    };
+    let sec = 1 + rng.below(3);
+    let mut m = vec![0x12, 0x34, 0x80, 0, 0, 1, 0, 1, 0, 1, 0, 1];
+    m.extend(labs(&q, b'a'));
+    m.extend([0, 0, 1, 0, 1]);
+    for s in 1..=3 {
+        if s == sec {
+            m.extend(&owner);
+        } else {
+            m.push(0);
+        }
+        m.extend([0, 1, 0, 1, 0, 0, 0, 60, 0, 4, 1, 2, 3, 4]);
+    }
+    m
+}
+
+/// a library-built message plus one record of a type with internal framing
+/// whose RDATA is a valid template hit by structural mutations (length
+/// octets, empty bitmap windows, truncation, garbage)
+fn typed_record(rng: &mut Rng) -> Vec<u8> {
+    let mut m = build_valid(rng);
+    let templates: &[(u16, &[u8])] = &[
+        (47, &[0, 0, 1, 0x40, 1, 2, 0, 1]),                       // NSEC . A + window 1
+        (47, &[1, b'b', 0, 0, 6, 0x40, 0, 0, 0, 0, 3]),            // NSEC b. A RRSIG NSEC
+        (50, &[1, 0, 0, 5, 2, 0xab, 0xcd, 4, 1, 2, 3, 4, 0, 1, 0x40]), // NSEC3
+        (51, &[1, 0, 0, 5, 2, 0xab, 0xcd]),
+        (16, &[1, b'a', 3, b'x', b'y', b'z']),
+        (13, &[1, b'a', 2, b'o', b's']),
+        (64, &[0, 1, 0, 0, 1, 0, 3, 2, b'h', b'2', 0, 3, 0, 2, 1, 187, 0, 4, 0, 4, 1, 2, 3, 4]),
+        (65, &[0, 1, 1, b'b', 0, 0, 0, 0, 2, 0, 1, 0, 1, 0, 3, 2, b'h', b'3']),
+        (45, &[10, 1, 2, 1, 2, 3, 4, 9, 9]),
+        (45, &[10, 3, 2, 1, b'g', 0, 9, 9]),
+        (250, &[0, 0, 0, 0, 0, 0, 1, 1, 44, 0, 2, 7, 7, 0, 0, 0, 0, 0, 0]),
+        (46, &[0, 1, 8, 1, 0, 0, 0, 60, 0, 0, 0, 2, 0, 0, 0, 1, 0, 7, 1, b's', 0, 5, 5]),
+        (35, &[0, 1, 0, 1, 1, b'U', 3, b's', b'i', b'p', 0, 0]),
+        (257, &[0, 5, b'i', b's', b's', b'u', b'e', b'a']),
+        (33, &[0, 1, 0, 1, 0, 80, 1, b't', 0]),
+        (63, &[0, 0, 0, 1, 1, 1, 9, 9, 9, 9, 9, 9, 9, 9, 9, 9, 9, 9]),
+    ];
+    let (t, tpl) = templates[rng.below(templates.len() as u64) as usize];
+    let mut rd = tpl.to_vec();
+    for _ in 0..rng.below(3) {
+        let n = rd.len();
+        match rng.below(6) {
+            0 if n > 0 => {
+                let i = rng.below(n as u64) as usize;
+                rd[i] = *rng.pick(&[0, 1, 2, 31, 32, 33, 34, 63, 64, 255]);
+            }
+            1 => {
+                // an empty bitmap window / zero-length field somewhere
+                let i = rng.below(n as u64 + 1) as usize;
+                rd.splice(i..i, [*rng.pick(&[0u8, 1, 255]), 0]);
+            }
+            2 if n > 0 => {
+                let k = rng.below(n as u64) as usize;
+                rd.truncate(k);
+            }
+            3 => rd.push(rng.next() as u8),
+            4 if n > 1 => {
+                let i = rng.below(n as u64 - 1) as usize;
+                rd.swap(i, i + 1);
+            }
+            _ => {}
+        }
+    }
+    // appended behind everything else: one more additional record
+    m.extend([0xC0, 12]);
+    m.extend(t.to_be_bytes());
+    m.extend([0, 1, 0, 0, 0, 60]);
+    m.extend((rd.len() as u16).to_be_bytes());
+    m.extend(&rd);
+    let ar = u16::from_be_bytes([m[10], m[11]]) + 1;
+    m[10] = (ar >> 8) as u8;
+    m[11] = ar as u8;
+    m
+}
+
 /// Does the label walk from `start` run into a pointer to itself?  Only used
 /// to budget the watchdog (which offsets to probe, how long to wait); the
 /// recorded value is always what the library did.
@@ -189,13 +312,19 @@ fn main() {
     let mut tw = TraceWriter::create(path);
     let mut slw = SliceProbe::new();
     let mut msgs: Vec<Vec<u8>> = vec![];
+    // messages that get the full projection whatever their size
+    let mut forced: Vec<Vec<u8>> = vec![];
+    for _ in 0..(n / 25).max(6) {
+        forced.push(limit_shape(&mut rng));
+    }
     // truncation of one valid message at every offset
     let base = build_valid(&mut rng);
     for k in 0..=base.len().min(cap) {
         msgs.push(base[..k].to_vec());
     }
     while msgs.len() < n {
-        let m = match rng.below(10) {
+        let m = match rng.below(12) {
+            10 | 11 => typed_record(&mut rng),
             0 => {
                 // random octets behind a plausible header
                 let mut m = vec![0x12, 0x34, 0x80, 0, 0, rng.below(3) as u8, 0, rng.below(3) as u8, 0, rng.below(2) as u8, 0, rng.below(2) as u8];
@@ -228,8 +357,10 @@ fn main() {
         };
         msgs.push(m);
     }
-    for m in msgs {
-        if m.len() > cap {
+    let nforced = forced.len();
+    forced.extend(msgs);
+    for (idx, m) in forced.into_iter().enumerate() {
+        if m.len() > cap && idx >= nforced {
             let a = observe(|| old_projection(&m, &[], &mut SliceProbe::new(), &[]));
             let b = observe(|| old_projection(&m, &[], &mut SliceProbe::new(), &[]));
             let panicked = a.get("panic").is_some()
